@@ -179,3 +179,17 @@ func (s *Subject) MountOf(p string) string {
 	}
 	return best
 }
+
+// SubMountAbove is Sub(mount.FS, "m") where the mount point is "m/a" (the view is above a mount point).
+// Kept apart from New because it is a known-finding configuration (C07).
+func SubMountAbove() *Subject {
+	root := NewMem()
+	must(root.MkdirAll("m/a", 0o755))
+	ma := NewMem()
+	mfs, err := mount.NewFS(root)
+	must(err)
+	must(mfs.AddMount("m/a", ma))
+	view, err := hackpadfs.Sub(mfs, "m")
+	must(err)
+	return &Subject{Kind: "submountabove", FS: view, Parts: []hackpadfs.FS{view, mfs, root, ma}, Close: func() {}}
+}
